@@ -37,6 +37,7 @@ def wpcTag : WPc → List Nat
   | .coal _ => [1]
   | .flight _ _ k => [2, k]
   | .got _ _ b => [3, if b.isEmpty then 0 else 1]
+  | .retry _ _ k => [9, k]
   | .enq _ => [4]
   | .x1 => [5] | .x2 => [6] | .x3 => [7] | .dead => [8]
 
